@@ -6,7 +6,7 @@ import z3
 
 from pyvc.harness import Scenario
 from pyvc.interp import Interp, PyRaise
-from pyvc.values import SObj
+from pyvc.values import SObj, SInt, SSeq
 from .c05_rules import setup, CL, RC, _mk
 
 # ------------------------------------------------------------------ _remove_expand_before_binary_op ---
@@ -136,7 +136,9 @@ SCENARIOS = [
              kind="bounded", bound="ranks of x, y, expand target <= 2; dims static int / 1 / named N, M / unknown; all values unbounded",
              trusted=["numpy-style multidirectional broadcasting (ONNX Broadcasting.md); Expand output shape = broadcast(input, target)",
                       "shape annotations are sound for every accepted input"], max_paths=60000, budget_s=900)
-    for k in (1, 2, 3) for xr in (None, 0, 1, 2) for yr in (None, 0, 1, 2) if not (xr is None and yr is not None and yr != 0)
+    # every rank is covered by the deductive [any rank] scenarios below; these small instances run the same code on REAL onnx_ir
+    # Shape objects (a cross-check of the symbolic-rank stand-in) and cover the "shape unknown" refusals
+    for k in (1, 2, 3) for xr, yr in ((None, None), (None, 0), (0, None), (1, None), (1, 1), (2, 1), (1, 2), (2, 2))
 ]
 
 
@@ -175,3 +177,266 @@ def s_same_shape(ctx):
 SCENARIOS.append(Scenario("C09.ir_utils.same_shape", s_same_shape, [("onnxscript/rewriter/_ir_utils.py", "same_shape"), ("onnxscript/rewriter/_ir_utils.py", "same_dim")],
                           kind="bounded", bound="ranks <= 2; every dim kind", max_paths=20000,
                           trusted=["onnx_ir Shape.has_unknown_dim / Shape.__eq__ / SymbolicDim.__eq__ (interpreted from their real source)"]))
+
+
+# ------------------------------------------------------------------ the same contracts for EVERY rank (deductive) ---
+# Ranks of x, y, the Expand target / output and the binary-op output are symbolic integers; dims are uninterpreted functions of
+# the position (contracts/symshape.py).  The loops of the real functions are verified with inductive invariants
+# (init / preserve / use).  Invariants are quantifier-free: the scenario fixes ONE arbitrary position p0 (a Skolem constant,
+# counted from the right) before the call and the invariant speaks about p0 only — "once the loop has passed p0, p0 was
+# checked".  Since p0 is arbitrary, the obligations proved for p0 hold for every position.
+
+from pyvc.interp import LoopSpec
+from .symshape import SymShape, bc
+
+CLR = ("C09: 'dropping Expand ... stays correct for every concrete input shape' — for every rank, every static / named / unknown "
+       "dim and every binding of the names")
+
+
+def _anyrank_world(ctx):
+    import onnx_ir as ir
+    from onnxscript.rewriter.rules.common import _remove_expand_before_binary_op as mod
+    I, W, N = setup(ctx)
+    X = SymShape(I, "x")
+    Y = SymShape(I, "y")
+    p0 = ctx.int("p0")
+    ctx.assume(p0 >= 0)
+    ctx.witness["p0"] = p0
+    return ir, mod, I, W, X, Y, p0
+
+
+def _value_with(W, name, symshape, dtype, const=None):
+    v = W.value(name, dims=None, rt=None, dtype=dtype, const=const)
+    v.fields["shape"] = symshape.obj if symshape is not None else None
+    return v
+
+
+def _z3max(a, b):
+    return z3.If(a > b, a, b)
+
+
+def _int1(S, p):
+    return z3.And(S.kind(p) == 0, S.ival(p) == 1)
+
+
+def _post(ctx, tag, X, Y, ex_rank, xp, yp, exp_, p0):
+    """the three obligations at the arbitrary position p0, given the runtime extents there"""
+    v_with, with_e = bc(exp_, yp)
+    v_wo, wo = bc(xp, yp)
+    ctx.check(f"C09.rules.expand_removable.{tag}.any_rank.same_output_rank", _z3max(X.rank, Y.rank) == _z3max(ex_rank, Y.rank),
+              "C09: the output RANK must not change either (every rank)")
+    ctx.check(f"C09.rules.expand_removable.{tag}.any_rank.binary_op_without_expand_is_valid", z3.Implies(v_with, v_wo), CLR)
+    ctx.check(f"C09.rules.expand_removable.{tag}.any_rank.same_output_dims_for_every_binding", z3.Implies(v_with, wo == with_e), CLR)
+
+
+def s_anyrank_strategy2(ctx):
+    """_check_dims_sufficient(expand_out.shape, x.shape, y.shape) for every rank (strategy 2 of _check_expand_removable)."""
+    ir, mod, I, W, X, Y, p0 = _anyrank_world(ctx)
+    E = SymShape(I, "e")  # the (sound) annotation of the Expand output
+    # run time: Expand(x, t) has shape broadcast(x, t): rank >= rank(x); per position the extent of x is kept unless it is 1
+    ctx.assume(E.rank >= X.rank)
+    xp, yp, ep = X.rt_or_1(p0), Y.rt_or_1(p0), E.rt_or_1(p0)
+    ctx.assume(z3.Or(xp == 1, ep == xp))
+
+    def P(p):
+        return z3.Or(_int1(E, p), z3.If(p < X.rank, X.same_static(E, p), _int1(E, p)), z3.If(p < Y.rank, Y.same_static(E, p), _int1(E, p)))
+
+    def inv(interp, env, k, pre, it):
+        return [("position_p0_was_checked", z3.Implies(z3.And(k > p0, p0 < E.rank), P(p0)))]
+    I.loops[("_check_dims_sufficient", 0)] = LoopSpec({}, inv)
+    x = _value_with(W, "x", X, ir.DataType.FLOAT)
+    y = _value_with(W, "y", Y, ir.DataType.FLOAT)
+    shape_v = W.value("shape", dims=None, rt=None, dtype=ir.DataType.INT64)
+    e_out = _value_with(W, "expand_out", E, ir.DataType.FLOAT)
+    I.models[mod.get_numpy_value] = lambda interp, v: None
+    try:
+        r = I.call(mod._check_expand_removable, [x, shape_v, y], {"expand_output": e_out, "binary_op_output": None})
+    except PyRaise:
+        ctx.check("C04.rules.expand_removable.strategy2.any_rank.never_raises", False, "C04")
+        return
+    if not I.truth(r):
+        ctx.cover("expand.any_rank.strategy2.refused")
+        return
+    ctx.cover("expand.any_rank.strategy2.accepted")
+    _post(ctx, "strategy2", X, Y, E.rank, xp, yp, ep, p0)
+
+
+def s_anyrank_strategy1(ctx):
+    """strategy 1 (constant Expand target of ANY length) inside _check_expand_removable, for every rank of x and y."""
+    ir, mod, I, W, X, Y, p0 = _anyrank_world(ctx)
+    tr = ctx.int("rank_target")
+    ctx.assume(tr >= 0)
+    ctx.witness["rank_target"] = tr
+    T = z3.Function("target_rev", z3.IntSort(), z3.IntSort())  # the constant's entries, by position from the right
+    tp = z3.If(p0 < tr, T(p0), z3.IntVal(1))
+    xp, yp = X.rt_or_1(p0), Y.rt_or_1(p0)
+    # run time: Expand(x, t) executes (t broadcastable with x) and yields broadcast(x, t)
+    ctx.assume(z3.Or(tp == 1, xp == 1, xp == tp))
+    ep = z3.If(xp == 1, tp, xp)
+    ex_rank = _z3max(X.rank, tr)
+
+    class ConstArr:
+        _pyvc_claims = (_np_ndarray(),)
+
+        def tolist(self_):
+            return SSeq(tr, lambda i: SInt(T(z3.simplify(tr - 1 - i))), name="target")
+    ConstArr.tolist._pyvc_native = True
+    arr = ConstArr()
+    I.models[mod.get_numpy_value] = lambda interp, v: (arr if isinstance(v, SObj) and v.fields.get("name") == "shape" else None)
+
+    def P(p):
+        tq = T(p)
+        return z3.Or(tq == 1, z3.If(p < X.rank, z3.And(X.kind(p) == 0, X.ival(p) == tq), tq == 1),
+                     z3.If(p < Y.rank, z3.And(Y.kind(p) == 0, Y.ival(p) == tq), tq == 1))
+
+    def inv(interp, env, k, pre, it):
+        return [("position_p0_was_checked", z3.Implies(z3.And(k > p0, p0 < tr), P(p0)))]
+    I.loops[("_check_expand_removable", 0)] = LoopSpec({}, inv)
+    x = _value_with(W, "x", X, ir.DataType.FLOAT)
+    y = _value_with(W, "y", Y, ir.DataType.FLOAT)
+    shape_v = W.value("shape", dims=None, rt=None, dtype=ir.DataType.INT64)
+    try:
+        r = I.call(mod._check_expand_removable, [x, shape_v, y], {"expand_output": None, "binary_op_output": None})
+    except PyRaise:
+        ctx.check("C04.rules.expand_removable.strategy1.any_rank.never_raises", False, "C04")
+        return
+    if not I.truth(r):
+        ctx.cover("expand.any_rank.strategy1.refused")
+        return
+    ctx.cover("expand.any_rank.strategy1.accepted")
+    _post(ctx, "strategy1", X, Y, ex_rank, xp, yp, ep, p0)
+
+
+def _np_ndarray():
+    import numpy
+    return numpy.ndarray
+
+
+SCENARIOS += [
+    Scenario("C09.rules.expand_before_binary_op.strategy2[any rank]", s_anyrank_strategy2,
+             [(REB, "_check_dims_sufficient"), (REB, "_check_expand_removable"), ("onnxscript/rewriter/_ir_utils.py", "same_dim")],
+             trusted=["numpy-style multidirectional broadcasting (ONNX Broadcasting.md); Expand output shape = broadcast(input, target)",
+                      "shape annotations are sound for every accepted input",
+                      "onnx_ir Shape.rank / __getitem__ and SymbolicDim.__eq__ / value (interpreted from their real source)"],
+             assumptions=["loop invariant is stated for one arbitrary (Skolem) position; termination not proved"],
+             max_paths=20000, budget_s=900),
+    Scenario("C09.rules.expand_before_binary_op.strategy1[any rank]", s_anyrank_strategy1,
+             [(REB, "_check_expand_removable")],
+             trusted=["numpy-style multidirectional broadcasting (ONNX Broadcasting.md); Expand output shape = broadcast(input, target)",
+                      "shape annotations are sound for every accepted input",
+                      "_ir_utils.get_numpy_value returns the constant's entries (its own contract: C05 overridable-initializer obligations)",
+                      "onnx_ir Shape.rank / __getitem__ (interpreted from their real source)"],
+             assumptions=["loop invariant is stated for one arbitrary (Skolem) position; termination not proved"],
+             max_paths=20000, budget_s=900),
+]
+
+
+def _broadcast_loop_spec(I, ctx, S1, S2, p0):
+    """inductive invariant of the list-building loop of _compute_broadcast_shape(shape1, shape2):
+    len(result) = number of completed iterations, and — once the loop has passed the (arbitrary) position p0 from the right —
+    result[that position] denotes the run-time broadcast of the two operands' extents there, which is a VALID broadcast."""
+    from .symshape import built_list_desc, denotes
+    rank = _z3max(S1.rank, S2.rank)
+    i0 = rank - 1 - p0  # the forward index of position p0 in the result
+    R = {}
+
+    def mk(interp):
+        L = ctx.int("len_result")
+        ctx.assume(L >= 0)
+        R["S"] = S = SymShape(interp, "result", rank=L, forward=True)
+        S.seq.mutable = True
+        return S.seq
+
+    def inv(interp, env, k, pre, it):
+        res = env.lookup("result")
+        if not isinstance(res, SSeq):   # before the loop: the empty python list
+            return [("result_has_one_entry_per_completed_iteration", k == len(res)),
+                    ("entry_p0_denotes_the_valid_runtime_broadcast", z3.Not(k > i0) if isinstance(k, int) else z3.Or(z3.Not(k > i0), i0 < 0))]
+        S = R["S"]
+        a, b = S1.rt_or_1(p0), S2.rt_or_1(p0)
+        valid, val = bc(a, b)
+        return [("result_has_one_entry_per_completed_iteration", res.len == k),
+                ("entry_p0_denotes_the_valid_runtime_broadcast",
+                 z3.Implies(z3.And(k > i0, i0 >= 0), z3.And(valid, denotes(built_list_desc(S, res, i0), val))))]
+    I.loops[("_compute_broadcast_shape", 0)] = LoopSpec({"result": mk}, inv)
+    return R, i0
+
+
+def s_anyrank_broadcast_shape(ctx):
+    """_compute_broadcast_shape / _compute_broadcast_dim for every rank: a non-None result has max(rank1, rank2) entries and each
+    entry denotes the run-time broadcast extent at its position (which is then a valid broadcast)."""
+    from .symshape import built_list_desc, denotes
+    ir, mod, I, W, X, Y, p0 = _anyrank_world(ctx)
+    R, i0 = _broadcast_loop_spec(I, ctx, X, Y, p0)
+    try:
+        r = I.call(mod._compute_broadcast_shape, [X.obj, Y.obj])
+    except PyRaise:
+        ctx.check("C04.rules.compute_broadcast_shape.any_rank.never_raises", False, "C04")
+        return
+    if r is None:
+        ctx.cover("broadcast_shape.any_rank.none")
+        return
+    ctx.cover("broadcast_shape.any_rank.list")
+    rank = _z3max(X.rank, Y.rank)
+    ctx.check("C09.rules.compute_broadcast_shape.any_rank.rank_is_the_larger_rank", (r.len if isinstance(r, SSeq) else len(r)) == rank, CLR)
+    if isinstance(r, SSeq):
+        valid, val = bc(X.rt_or_1(p0), Y.rt_or_1(p0))
+        ctx.check("C09.rules.compute_broadcast_shape.any_rank.entry_denotes_the_runtime_broadcast_for_every_binding",
+                  z3.Implies(p0 < rank, z3.And(valid, denotes(built_list_desc(R["S"], r, i0), val))), CLR)
+
+
+def s_anyrank_strategy3(ctx):
+    """strategy 3 (only the binary-op output is annotated) for every rank: broadcast(x.shape, y.shape) computed by the real
+    _compute_broadcast_shape is compared entry by entry with the annotation of the binary-op output."""
+    ir, mod, I, W, X, Y, p0 = _anyrank_world(ctx)
+    I.quant_skolem = True
+    O = SymShape(I, "out")  # (sound) annotation of the binary-op output = broadcast(broadcast(x, t), y) at run time
+    tr = ctx.int("rank_target")
+    ctx.assume(tr >= 0)
+    T = z3.Function("target_rev", z3.IntSort(), z3.IntSort())
+    tp = z3.If(p0 < tr, T(p0), z3.IntVal(1))
+    xp, yp = X.rt_or_1(p0), Y.rt_or_1(p0)
+    ctx.assume(z3.Or(tp == 1, xp == 1, xp == tp))          # Expand(x, t) executes
+    ep = z3.If(xp == 1, tp, xp)
+    ex_rank = _z3max(X.rank, tr)
+    v_with, with_e = bc(ep, yp)
+    ctx.assume(v_with)                                      # the original binary op executes
+    ctx.assume(O.rank == _z3max(ex_rank, Y.rank))           # soundness of the output annotation: rank ...
+    ctx.assume(z3.Implies(p0 < O.rank, O.rt(p0) == with_e))  # ... and extents
+    O.facts(p0)
+    R, i0 = _broadcast_loop_spec(I, ctx, X, Y, p0)
+    x = _value_with(W, "x", X, ir.DataType.FLOAT)
+    y = _value_with(W, "y", Y, ir.DataType.FLOAT)
+    shape_v = W.value("shape", dims=None, rt=None, dtype=ir.DataType.INT64)
+    b_out = _value_with(W, "binary_out", O, ir.DataType.FLOAT)
+    I.models[mod.get_numpy_value] = lambda interp, v: None
+    try:
+        r = I.call(mod._check_expand_removable, [x, shape_v, y], {"expand_output": None, "binary_op_output": b_out})
+    except PyRaise:
+        ctx.check("C04.rules.expand_removable.strategy3.any_rank.never_raises", False, "C04")
+        return
+    if not I.truth(r):
+        ctx.cover("expand.any_rank.strategy3.refused")
+        return
+    ctx.cover("expand.any_rank.strategy3.accepted")
+    # all(same_dim(c, a) for c, a in zip(computed, out_shape)) held: use it at the forward index of position p0
+    I.instantiate_forall(z3.simplify(_z3max(X.rank, Y.rank) - 1 - p0))
+    ctx.cover("expand.any_rank.strategy3.accepted.instantiated")
+    _post(ctx, "strategy3", X, Y, ex_rank, xp, yp, ep, p0)
+
+
+_TR = ["numpy-style multidirectional broadcasting (ONNX Broadcasting.md); Expand output shape = broadcast(input, target)",
+       "shape annotations are sound for every accepted input",
+       "onnx_ir Shape.rank / __getitem__ / __iter__ and SymbolicDim.__eq__ / value (interpreted from their real source)"]
+SCENARIOS += [
+    Scenario("C09.rules.expand_before_binary_op.compute_broadcast_shape[any rank]", s_anyrank_broadcast_shape,
+             [(REB, "_compute_broadcast_shape"), (REB, "_compute_broadcast_dim"), ("onnxscript/rewriter/_ir_utils.py", "same_dim")],
+             trusted=_TR, assumptions=["loop invariant is stated for one arbitrary (Skolem) position; termination not proved"],
+             max_paths=20000, budget_s=900),
+    Scenario("C09.rules.expand_before_binary_op.strategy3[any rank]", s_anyrank_strategy3,
+             [(REB, "_check_expand_removable"), (REB, "_compute_broadcast_shape"), (REB, "_compute_broadcast_dim"),
+              ("onnxscript/rewriter/_ir_utils.py", "same_dim")],
+             trusted=_TR, assumptions=["loop invariant is stated for one arbitrary (Skolem) position; termination not proved",
+                                       "all(...) over a sequence of symbolic length is used at the Skolem position only (nothing else assumed)"],
+             max_paths=20000, budget_s=900),
+]
